@@ -91,7 +91,9 @@ public:
     SetDbl(be, CON_TARGET, GetDbl(be, CON_SRC));
     const auto& orig_cons =
         GetMC().template GetConstraint<RangeCon>(be[CON_SRC]);
-    SetDbl(be, VAR_SLK, orig_cons.ComputeLowerSlack(GetNode(VAR_SLK)));
+    /// The slack is defined by body + slack = ub
+    SetDbl(be, VAR_SLK, orig_cons.ub() - orig_cons.lb()
+           - orig_cons.ComputeLowerSlack(GetNode(VAR_SLK)));
   }
 
   /// Postsolve solution (primal + dual)
